@@ -707,11 +707,15 @@ fn run_scenario(ctx: &mut Ctx, rt: &tokio::runtime::Runtime, sc: &Scenario, emit
         }
         if emit_cuts {
             let l = t_engine(&cp).text();
+            // the state the restored engine holds, read back through a second checkpoint: buffer and
+            // stack ORDER is part of it (the driver compares it with what the model says restore gives)
+            let recheck = std::cell::RefCell::new(String::from("n"));
             let res = catch(std::panic::AssertUnwindSafe(|| {
                 let bytes = match codec::serialize(&cp, CheckpointFormat::active()) { Ok(b) => b, Err(_) => return "unreadable serialize".to_string() };
                 let cp2: EngineCheckpoint = match codec::deserialize(&bytes) { Ok(c) => c, Err(_) => return "unreadable deserialize".to_string() };
                 let mut fresh = mk();
                 if fresh.engine.restore_checkpoint(&cp2).is_err() { return "unreadable restore".to_string(); }
+                *recheck.borrow_mut() = t_engine(&fresh.engine.create_checkpoint()).text();
                 let got = run_tail(rt, &mut fresh, &sc.ops[k..], with_ts);
                 let exp = &base[k..];
                 if got.as_slice() == exp { "same".to_string() } else {
@@ -721,10 +725,38 @@ fn run_scenario(ctx: &mut Ctx, rt: &tokio::runtime::Runtime, sc: &Scenario, emit
             })).unwrap_or_else(|_| "panic".into());
             if res == "same" { ctx.count("cut:same"); } else { ctx.count("cut:DIFFERENT"); }
             let subms = sc.ops[..k].iter().any(|o| matches!(o, Op::Ev(e) if e.timestamp.timestamp_subsec_nanos() % 1_000_000 != 0));
-            ctx.case(&format!("cut {} {} tags={} subms={} {}", k, sc.ops.len(), sc.prog.tags.join(","), if subms { 1 } else { 0 }, l), &res);
+            ctx.case(&format!("cut {} {} tags={} subms={} {} ## {}", k, sc.ops.len(), sc.prog.tags.join(","), if subms { 1 } else { 0 }, l, recheck.borrow()), &res);
         }
         if k < sc.ops.len() { main.apply(rt, &sc.ops[k], with_ts); }
     }
+}
+
+/// joins under stress: 2- and 3-way, few keys, events of one source and key arriving OUT OF TIMESTAMP
+/// ORDER with pairwise different field values, a window that keeps everything; every cut point.
+/// (The live per-key buffer is in arrival order and correlation takes the latest ARRIVED in-window
+/// event of each source, so any reordering of a restored buffer shows in the joined fields.)
+fn gen_join_scenario(ctx: &mut Ctx) -> Scenario {
+    let r = &mut ctx.rng;
+    let three = r.chance(1, 3);
+    let w = 20 + r.below(41);
+    let text = if three {
+        format!("stream J = join(A, B, C)\n    .on(A.k == B.k and B.k == C.k)\n    .window({}s)\n    .emit(k: A.k, ax: A.x, bx: B.x, cx: C.x)", w)
+    } else {
+        format!("stream J = join(A, B)\n    .on(A.k == B.k)\n    .window({}s)\n    .emit(k: A.k, ax: A.x, bx: B.x)", w)
+    };
+    let types: Vec<&'static str> = if three { vec!["A", "B", "C"] } else { vec!["A", "B"] };
+    let n = 4 + r.below(7) as usize;
+    let mut ops = Vec::new();
+    for i in 0..n {
+        // a burst of one source first (so that several same-key events sit in one buffer), then mixed
+        let ty = if i < 2 + (n / 3) && r.chance(2, 3) { types[0] } else { *r.pick(&types) };
+        let ts_ms = r.below(33) as i64 * 250;               // any order within 8 s
+        let k = if r.chance(5, 6) { "a" } else { "b" };
+        ops.push(wev(ty, ts_ms * 1_000_000, i as i64, 100 + i as i64, k));
+    }
+    let mut tags = vec!["join", "join-out-of-order"];
+    if three { tags.push("join-3way"); }
+    Scenario { prog: Prog { text, types, tags, wm: false, var: false, wspec: None }, ops }
 }
 
 fn gen_scenario(ctx: &mut Ctx) -> Scenario {
@@ -843,6 +875,8 @@ fn run_window_scenario(ctx: &mut Ctx) {
                 let cp2: WindowCheckpoint = codec::deserialize(&bytes).map_err(|_| ())?;
                 let mut fresh = mk_win(&cfg);
                 fresh.restore(&cp2);
+                let bytes2 = codec::serialize(&fresh.checkpoint(), CheckpointFormat::active()).map_err(|_| ())?;
+                let j = format!("{} J2={}", j, json_tree(&bytes2));
                 Ok::<(String, Win), ()>((j, fresh))
             }));
             match res {
@@ -950,11 +984,13 @@ fn run_sase_scenario(ctx: &mut Ctx) {
     for k in 0..=evs.len() {
         let cp = main.checkpoint();
         let l = t_sase(&cp).text();
+        let recheck = std::cell::RefCell::new(String::from("n"));
         let res = catch(std::panic::AssertUnwindSafe(|| {
             let bytes = match codec::serialize(&cp, CheckpointFormat::active()) { Ok(b) => b, Err(_) => return "unreadable serialize".to_string() };
             let cp2: SaseCheckpoint = match codec::deserialize(&bytes) { Ok(c) => c, Err(_) => return "unreadable deserialize".to_string() };
             let mut fresh = mk_sase(&p);
             fresh.restore(&cp2);
+            *recheck.borrow_mut() = t_sase(&fresh.checkpoint()).text();
             let got: Vec<String> = evs[k..].iter().map(|ev| sase_step(&mut fresh, ev)).collect();
             let exp = &base[k..];
             if got.as_slice() == exp { "same".to_string() } else {
@@ -964,7 +1000,7 @@ fn run_sase_scenario(ctx: &mut Ctx) {
         })).unwrap_or_else(|_| "panic".into());
         if res == "same" { ctx.count("scut:same"); } else { ctx.count("scut:DIFFERENT"); }
         let sub = evs[..k].iter().any(|e| e.timestamp.timestamp_subsec_nanos() % 1_000_000 != 0);
-        ctx.case(&format!("scut {} {} tags={} subms={} {}", k, evs.len(), p.tags.join(","), if sub { 1 } else { 0 }, l), &res);
+        ctx.case(&format!("scut {} {} tags={} subms={} {} ## {}", k, evs.len(), p.tags.join(","), if sub { 1 } else { 0 }, l, recheck.borrow()), &res);
         if k < evs.len() { sase_step(&mut main, &evs[k]); }
     }
 }
@@ -1048,6 +1084,9 @@ fn witness_scenarios() -> Vec<Scenario> {
            vec![wev("A", 0, 0, 7, "a"), wev("A", 10 * S, 1, 0, "z"), wev("A", 12 * S, 2, 0, "z"), wev("B", 5 * S, 4, 8, "a")]),
         mk("stream J = join(A, B)\n    .on(A.k == B.k)\n    .window(1s)\n    .emit(k: A.k, ax: A.x, bx: B.x)", vec!["witness", "join"], false,
            vec![wev("A", 500_000, 0, 7, "a"), wev("B", S + 300_000, 1, 8, "a"), wev("A", 3 * S + 700_000, 2, 1, "a"), wev("B", 3 * S + 200_000, 3, 2, "a")]),
+        // arrival order of a join buffer: A(x=1)@10s arrives before A(x=2)@5s; B@12s must join with x=2
+        mk("stream J = join(A, B)\n    .on(A.k == B.k)\n    .window(60s)\n    .emit(k: A.k, ax: A.x, bx: B.x)", vec!["witness", "join", "join-out-of-order"], false,
+           vec![wev("A", 10 * S, 0, 1, "a"), wev("A", 5 * S, 1, 2, "a"), wev("B", 12 * S, 2, 9, "a")]),
         mk("stream W = T\n    .watermark(out_of_order: 0s)\n    .window(5s)\n    .aggregate(n: count())\n    .emit(n: n)\n\nstream WU = U\n    .watermark(out_of_order: 0s)\n    .window(1s)\n    .aggregate(n: count())\n    .emit(un: n)",
            vec!["witness", "watermark", "two-sources"], true,
            vec![wev("T", 12 * S, 0, 0, "a"), wev("U", 2 * S, 1, 0, "a"), Op::Wm("U".into(), 8000), wev("U", 9 * S, 2, 0, "a")]),
@@ -1059,6 +1098,7 @@ fn run_c19(ctx: &mut Ctx) {
     for sc in witness_scenarios() { run_scenario(ctx, &rt, &sc, true, false); }
     let n = if ctx.thorough { 4000 } else { 350 };
     for _ in 0..n { let sc = gen_scenario(ctx); run_scenario(ctx, &rt, &sc, true, false); }
+    for _ in 0..(if ctx.thorough { 1500 } else { 120 }) { let sc = gen_join_scenario(ctx); run_scenario(ctx, &rt, &sc, true, false); }
     for _ in 0..(if ctx.thorough { 6000 } else { 500 }) { run_window_scenario(ctx); }
     for _ in 0..(if ctx.thorough { 3000 } else { 250 }) { run_sase_scenario(ctx); }
     for _ in 0..(if ctx.thorough { 3000 } else { 300 }) { run_tracker_scenario(ctx); }
